@@ -1,6 +1,6 @@
 (* C12 — row- and field-level transforms touch only what they are asked to.
    Cell-level characterisations, independent of the recursion of the models (model/Basics.v, model/Transforms.v). *)
-From Verif Require Import PyVal Rows AsIndicesGen Basics Selects Transforms TransformFacts.
+From Verif Require Import PyVal Rows AsIndicesGen Basics Selects Transforms TransformFacts AnnexFacts.
 Open Scope Z_scope.
 
 (* exactly one output row per input row, in input order (every map_rows-based transform: cut, cutout, movefield,
@@ -48,9 +48,25 @@ Example C12_asindices_priority :
   /\ asindices [VStr [107]] (VStr [122]) = Err FieldSelectionErr.
 Proof. repeat split; vm_compute; reflexivity. Qed.
 
+(* annex: headers side by side; every output row has exactly one cell per output field (each table contributes exactly the
+   width of its own header: short rows padded, long rows trimmed, `missing` once a table is exhausted); as many rows as
+   the longest table has *)
+Theorem C12_annex_rectangular : forall missing (tables : list table) outt,
+  annex_model missing tables = (outt, None) ->
+  exists hdrs, hdrs = map (fun t => match t with h :: _ => h | [] => [] end) tables /\
+    hd [] outt = concat hdrs /\
+    Forall (fun r => length r = length (concat hdrs)) outt /\
+    length outt = S (fold_right (fun rs n => Nat.max (length rs) n) O (map (fun t => tl t) tables)).
+Proof. exact annex_model_rectangular. Qed.
+
+Theorem C12_annex_cells_width : forall missing w rs, length (annex_cells missing (w, rs)) = w.
+Proof. exact annex_cells_length. Qed.
+
 Print Assumptions C12_one_row_per_row.
 Print Assumptions C12_rows_in_input_order.
 Print Assumptions C12_cut_cell.
 Print Assumptions C12_insert_frame.
 Print Assumptions C12_convert_frame.
 Print Assumptions C12_fillright_frame.
+Print Assumptions C12_annex_rectangular.
+Print Assumptions C12_annex_cells_width.
